@@ -372,7 +372,7 @@ def op_add(step, ctx):
           'name': cps(step['name']) if isinstance(step['name'], str) else [],
           'has_setname': step.get('set_name') is not None, 'setname': cps(step.get('set_name') or ''),
           'origin': step.get('origin_reference') if step.get('origin_reference') is not None else -1,
-          'attrs': [], 'has_data': False}
+          'attrs': [], 'has_data': False, 'soft_only': bool(step.get('soft_only'))}
     kw = {}
     try:
         for k, v in step.get('kw', {}).items():
@@ -421,12 +421,18 @@ def op_add(step, ctx):
 def op_set(step, ctx):
     """Later assignment: item.<attr>.value = v  /  item.<attr>.units = u  /  item.origin_reference = n."""
     ev = {'op': 'set', 'oid': ctx['oids'].get(step['obj'], 0), 'part': step['part'], 'label': [], 'val': [],
-          'units': [], 'origin': -1, 'name': [], 'judge': True}
+          'units': [], 'origin': -1, 'name': [], 'judge': True, 'enum_ok': True, 'soft_only': bool(step.get('soft_only'))}
+    if step.get('enum') and step['part'] in ('value', 'units'):
+        from dliswriter.utils import enums
+        members = {m.value for m in getattr(enums, step['enum'])}
+        ev['enum_ok'] = all(x['t'] == 'enum' or (x['t'] == 'str' and x['v'] in members) for x in flatten(step['val']))
     try:
         item = ctx['objs'][step['obj']]
         if step['part'] == 'origin_reference':
             ev['origin'] = step['v']
             item.origin_reference = step['v']
+        elif step['part'] == 'cast_dtype':
+            item.cast_dtype = to_py(step['val'], ctx)
         elif step['part'] == 'dataset_name':
             item.dataset_name = step['v']
         elif step['part'] == 'name':
@@ -533,7 +539,7 @@ def be_bytes(a, cast):
 def small_int(x):
     try:
         fx = float(x)
-        if fx == fx and abs(fx) < 2 ** 30 and fx.is_integer():
+        if fx == fx and abs(fx) < 2 ** 20 and fx.is_integer():
             return True, int(fx)
     except Exception:  # noqa
         pass
